@@ -723,12 +723,22 @@ def gen_history(rng):
             cur[:] = new
         return st
 
+    def rejected_step():
+        # a call the code must reject (any method, any reason, in place or copying): the history carries on afterwards
+        from props import c06_more
+        if rng.chance(0.35):
+            call, reason = c06_more.gen_rejected(rng, cur)
+            steps.append({"op": "rejected", "call": call, "reason": reason})
+
     steps.append(resample_step())
     for _ in range(rng.randint(1, 2)):
         for _ in range(rng.randint(1, 2)):
+            rejected_step()
             steps.append(mutate_step())
+        rejected_step()
         steps.append(resample_step())
-    return {"stream": "hist", "shape": shape, "dtype": dtype, "seed": rng.next() & 0xFFFFFFFF, "steps": steps, "layout": gen_layout(rng)}
+    return {"stream": "hist", "shape": shape, "dtype": dtype, "seed": rng.next() & 0xFFFFFFFF, "steps": steps, "layout": gen_layout(rng),
+            "values": rng.weighted(VALUE_CLASSES)}
 
 
 def model_exact(drv, marr, mreal, opreq):
@@ -750,17 +760,42 @@ def model_exact(drv, marr, mreal, opreq):
 def check_history(ctx, drv, case):
     from quantem.core.datastructures import Dataset
     warnings.simplefilter("ignore")
-    x = float_array({"seed": case["seed"], "shape": case["shape"], "dtype": case["dtype"]})
+    x = float_array({"seed": case["seed"], "shape": case["shape"], "dtype": case["dtype"], "values": case.get("values", "random")})
     ds = Dataset.from_array(apply_layout(x.copy(), case.get("layout")), origin=[0.0] * x.ndim, sampling=[1.0] * x.ndim)
     ctx.dist["hist:layout:" + str(case.get("layout", "C"))] += 1
     marr = np.asarray(x, dtype=np.complex128)
     mreal = bool(np.isrealobj(x))
     ctx.dist["hist:histories"] += 1
+    from props import c03
+    kept = []          # every other dataset of the history (results not followed, sources left behind) with its snapshot
     for i, st in enumerate(case["steps"]):
         sub = dict(case, steps=case["steps"][: i + 1])
+        for obj, snap in kept:
+            if c03.snapshot(obj) != snap:
+                ctx.pred_fail("hist-other-dataset-changed", f"step {i - 1} changed a dataset returned / left behind earlier in the history", sub,
+                              observed=c03.snap_diff(snap, c03.snapshot(obj)), required="bit-identical")
+                return
         before = ds.array.copy()
         nd = before.ndim
         ctx.count()
+        if st["op"] == "rejected":
+            snap = c03.snapshot(ds)
+            call = st["call"]
+            try:
+                c03.apply_op(ds, call)
+                err = None
+            except Exception as e:  # noqa
+                err = err_name(e)
+            ctx.dist["hist:rejected:" + call["op"] + ":" + st["reason"] + (":inplace" if call.get("inplace") else "")] += 1
+            ctx.mark(("hist", "rejected", call["op"], st["reason"], bool(call.get("inplace")), nd))
+            if err is None:
+                ctx.disagree("hist", sub, {"outcome": "raises"}, {"outcome": "ok"}, note=f"step {i}: malformed {call['op']} call ({st['reason']}) accepted")
+                return
+            if c03.snapshot(ds) != snap:
+                ctx.pred_fail("rejected-call-changed-state", f"{call['op']}() raised {err} ({st['reason']}) but changed the dataset (step {i} of a history)", sub,
+                              observed=c03.snap_diff(snap, c03.snapshot(ds)), required="array, origin and sampling bit-identical after a rejected call")
+                return
+            continue
         ctx.dist["hist:" + st["op"] + (":inplace" if st.get("inplace") else "")] += 1
         ctx.mark(("hist", st["op"], bool(st.get("inplace")), nd, case["steps"][i - 1]["op"] if i else "new", np.dtype(case["dtype"]).kind))
         try:
@@ -836,7 +871,11 @@ def check_history(ctx, drv, case):
         if st.get("inplace") or st["op"] == "set_array" or st.get("follow"):
             marr = mnew
         if st.get("follow") and r is not None:
+            kept.append((ds, c03.snapshot(ds)))
             ds = r
+        elif r is not None:
+            kept.append((r, c03.snapshot(r)))
+        kept = kept[-4:]
     ctx.sample({"stream": "hist", "shape": case["shape"], "dtype": case["dtype"], "steps": case["steps"][:4]}, limit=5)
 
 
